@@ -50,6 +50,14 @@ structure G where
   driving : Bool := false
   /-- the line uses something this glue does not interpret -/
   unsupported : Bool := false
+  /-- cfg `ops=1`: the peer's `o<sid>` ops are in the trace, the history carries `O=<sid>` -/
+  ops1 : Bool := false
+  /-- client: bidirectional stream credit (`bc=<n>`, `gb<n>`); `none` = unlimited -/
+  credit : Option Nat := none
+  /-- client: the `snd` task is inside a `send_request` call that waits for its stream -/
+  sndBusy : Bool := false
+  /-- client: `snd.R` ops waiting in the task's mailbox behind that call -/
+  sndq : Nat := 0
 
 def G.rq (g : G) (id : Nat) : RQ := (g.reqs.find? (·.id == id)).getD { id := id }
 def G.setRq (g : G) (r : RQ) : G :=
@@ -70,7 +78,10 @@ def execCmd (g : G) (c : String) : G :=
   else if c == "AS" then { g with mode := 0 }
   else match c.splitOn ":" with
     | ["S", n] => match n.toNat? with
-      | some n => g.ev (.shutdown n)
+      | some n =>
+        -- the count of the call goes into the history in front of the call's answer (`S=<n> conn.S=…`)
+        let r := step g.s (.shutdown n)
+        g.emit (r.1, r.2.dropLast ++ [.shutdownCalled n] ++ r.2.drop (r.2.length - 1))
       | none => { g with unsupported := true }
     | _ => { g with unsupported := true }
 
@@ -118,7 +129,9 @@ def opServer (g : G) (op : String) : G :=
         -- no such task (not shown to the application, or gone): the harness answers `no-task`,
         -- nothing reaches h3
         if r.phase == 0 || r.phase == 4 then g
-        else if c == "dr" then (g.setRq { r with phase := 4 }).ev (.complete id)
+        else if c == "dr" then
+          let g1 := g.setRq { r with phase := 4 }
+          ({ g1 with obs := g1.obs ++ [Obs.completed id] }).ev (.complete id)
         else if c == "res" && r.phase == 1 && decide (1 ≤ r.hok) then (g.setRq { r with phase := 3 }).ev (.resolve id)
         -- `res` before the request is there (it would wait), a second `res`, other commands: not interpreted
         else { g with unsupported := true }
@@ -132,7 +145,9 @@ def opServer (g : G) (op : String) : G :=
         -- SimQuic: opening a stream a second time does nothing
         if id == 2 then { g with ctlOpen := true }
         else if isReqStream id then
-          (if (g.rq id).isOpen then g else (g.setRq { g.rq id with isOpen := true }).ev (.arrive id))
+          (if (g.rq id).isOpen then g else
+            let g1 := g.setRq { g.rq id with isOpen := true }
+            ({ g1 with obs := if g.ops1 then g1.obs ++ [Obs.arrived id] else g1.obs }).ev (.arrive id))
         else { g with unsupported := true }
       | none => { g with unsupported := true }
     | 's' :: r =>
@@ -154,9 +169,35 @@ def opServer (g : G) (op : String) : G :=
       | _ => { g with unsupported := true }
     | _ => { g with unsupported := true }
 
+/-- the `snd` task runs one `send_request`: first gate; with stream credit the stream is opened at once
+    (second gate, the request is written), without it the call waits. -/
+def sndCall (g : G) : G :=
+  let g1 := g.ev .sendCall
+  if g1.s.parked == 0 then g1
+  else match g1.credit with
+    | none => g1.ev .sendOpened
+    | some (c + 1) => ({ g1 with credit := some c }).ev .sendOpened
+    | some 0 => { g1 with sndBusy := true }
+
+/-- credit has arrived: the waiting call gets its stream, then the task takes the calls queued behind it. -/
+def sndResume : Nat → G → G
+  | 0, g => g
+  | f + 1, g =>
+    if g.sndBusy then
+      match g.credit with
+      | some 0 => g
+      | some (c + 1) => sndResume f (({ g with credit := some c, sndBusy := false }).ev .sendOpened)
+      | none => sndResume f (({ g with sndBusy := false }).ev .sendOpened)
+    else if g.sndq == 0 then g
+    else sndResume f (sndCall { g with sndq := g.sndq - 1 })
+
 def opClient (g : G) (op : String) : G :=
   if op == "drv.W" then clientPoll { g with driving := true }
-  else if op.startsWith "snd.R:" then g.ev .sendRequest
+  else if op.startsWith "snd.R:" then (if g.sndBusy then { g with sndq := g.sndq + 1 } else sndCall g)
+  else if op.startsWith "gb" then
+    match (op.drop 2).toString.toNat? with
+    | some n => sndResume (2 * g.sndq + 4) { g with credit := g.credit.map (· + n) }
+    | none => { g with unsupported := true }
   else
     match op.toList with
     | 'o' :: r => if (String.ofList r).toNat? == some 3 then { g with ctlOpen := true } else { g with unsupported := true }
@@ -191,6 +232,9 @@ def tokenOf : Obs → Option String
   | .remoteClosing => some "snd.R=err:rclosing"
   | .served i => some s!"Q={i}:ok"
   | .notServed i => some s!"Q={i}:not-served"
+  | .arrived i => some s!"O={i}"
+  | .completed i => some s!"D={i}"
+  | .shutdownCalled n => some s!"S={n}"
   | _ => none
 
 def renderToks (os : List Obs) : String :=
@@ -202,7 +246,7 @@ def renderToks (os : List Obs) : String :=
     `remoteClosing` = no stream was opened, so nothing was written; then the request streams written
     after the last call (`w=`) and, from the transport's final state, the client-initiated bidirectional
     streams with / without bytes (`streams=<written>/<opened, nothing written>`). -/
-def renderClient (ev1 : Bool) (os : List Obs) (opened : Nat) : String :=
+def renderClient (ev1 : Bool) (os : List Obs) : String :=
   let w (x : String) := if ev1 then x else "?"
   let toks := os.filterMap (fun o =>
     match o with
@@ -210,8 +254,10 @@ def renderClient (ev1 : Bool) (os : List Obs) (opened : Nat) : String :=
     | .remoteClosing => some s!"snd.R=err:rclosing/w={w "-"}"
     | .idError => some "drv.W=err:local:H3_ID_ERROR"
     | _ => none)
-  let ids := (List.range opened).map (fun k => toString (4 * k))
-  " ".intercalate (toks ++ [s!"w={w "-"}", s!"streams={if ids.isEmpty then "-" else ",".intercalate ids}/-"])
+  let ids (l : List Nat) := if l.isEmpty then "-" else ",".intercalate (l.map toString)
+  let written := os.filterMap (fun o => match o with | .opened i => some i | _ => none)
+  let empty := os.filterMap (fun o => match o with | .unused i => some i | _ => none)
+  " ".intercalate (toks ++ [s!"w={w "-"}", s!"streams={ids written}/{ids empty}"])
 
 /-! ### the judge: RFC 9114 §5.2 (`H3.Spec.Goaway`) applied to an observed history -/
 
@@ -236,6 +282,10 @@ def parseJTok (t : String) : JTok :=
   else if t.startsWith "G=" then
     match (t.drop 2).toString.toNat? with
     | some g => .obs (.goaway g)
+    | none => .unknown t
+  else if t.startsWith "O=" || t.startsWith "D=" || t.startsWith "S=" then
+    match (t.drop 2).toString.toNat? with
+    | some i => .obs (if t.startsWith "O=" then .arrived i else if t.startsWith "D=" then .completed i else .shutdownCalled i)
     | none => .unknown t
   else if t.startsWith "R=" then
     match ((t.drop 2).toString.splitOn ":").map (·.toNat?) with
@@ -273,6 +323,23 @@ def explain (h : Hist) : Obs → String
   | _ => "?"
 
 open H3.Spec.Goaway in
+def explainQ (h : Hist) : Obs → String
+  | .surfaced i => s!"second-outcome-for-stream({i})"
+  | .rejected i => s!"second-outcome-for-stream({i})"
+  | .acceptNone =>
+    match h.opened.reverse.find? (fun i => !disposed h i) with
+    | some i => s!"none-with-opened-stream-neither-served-nor-refused({i})"
+    | none => match h.surfaced.reverse.find? (fun i => !h.done.contains i) with
+      | some i => s!"none-with-request-in-progress({i})"
+      | none => "?"
+  | .shutdownOk =>
+    match lastSent h, h.call with
+    | none, _ => "shutdown-ok-without-goaway"
+    | some g, some n => s!"shutdown({n})-ok-with-identifier-in-force-above-its-bound({g}>{shutdownBound h n})"
+    | _, _ => "?"
+  | _ => "?"
+
+open H3.Spec.Goaway in
 def judgeFrom : Hist → List JTok → String
   | _, [] => "ok"
   | _, .unknown t :: _ => s!"BAD:unknown-token({t})"
@@ -283,7 +350,10 @@ def judgeFrom : Hist → List JTok → String
     if h.surfaced.contains i && c != REJ then judgeFrom h r
     else if h.surfaced.contains i then s!"VIOLATES:refused-after-surfacing({t})"
     else s!"VIOLATES:half-refused({t})"
-  | h, .obs o :: r => if okObs true h o then judgeFrom (h.push o) r else "VIOLATES:" ++ explain h o
+  | h, .obs o :: r =>
+    if !okObs true h o then "VIOLATES:" ++ explain h o
+    else if !okQueue h o then "VIOLATES:" ++ explainQ h o
+    else judgeFrom (h.push o) r
 
 /-- unknown tokens first: a projection that emits something the judge does not know must not get a
     verdict on the rest. -/
@@ -306,8 +376,15 @@ structure CS where
   ev1 : Bool := false
   /-- requests the oracle says are started (no GOAWAY processed before the call) -/
   started : Nat := 0
-  /-- a call the oracle has no opinion on (after the connection error) has been made -/
+  /-- a call the oracle has no opinion on (after the connection error) has been made: nothing is
+      demanded from there on -/
   noOpinion : Bool := false
+  /-- bidirectional stream credit (`bc=<n>`, `gb<n>`); `none` = unlimited -/
+  credit : Option Nat := none
+  /-- a call has been made while no GOAWAY was processed and waits for its stream -/
+  parked : Bool := false
+  /-- calls made behind it -/
+  queued : Nat := 0
 
 def csProcess (c : CS) : CS :=
   if !c.driving then c else
@@ -316,16 +393,44 @@ def csProcess (c : CS) : CS :=
     { c1 with driving := false, toks := c1.toks ++ ["drv.W=err:local:H3_ID_ERROR"] }
   else c1
 
+/-- a call gets its stream: `H3.Spec.Goaway.mayStart` on the GOAWAYs processed by NOW decides. -/
+def csDecide (c : CS) : CS :=
+  if c.noOpinion then c else
+  match H3.Spec.Goaway.mayStart c.proc with
+  -- "a client that has processed a GOAWAY starts no new request": the call is refused AND nothing is
+  -- written on any request stream while it runs — also when the GOAWAY was processed while it waited
+  | some false => { c with toks := c.toks ++ [if c.ev1 then "snd.R=err:rclosing/w=-" else "snd.R=err:rclosing/w=?"] }
+  | some true => { c with toks := c.toks ++ ["snd.R=req:*/w=*"], started := c.started + 1 }
+  | none => { c with noOpinion := true }
+
+/-- a call is made: refused at once after a GOAWAY; otherwise it needs a stream. -/
+def csCall (c : CS) : CS :=
+  if c.noOpinion then c
+  else if H3.Spec.Goaway.mayStart c.proc != some true then csDecide c
+  else match c.credit with
+    | none => csDecide c
+    | some (k + 1) => csDecide { c with credit := some k }
+    | some 0 => { c with parked := true }
+
+def csResume : Nat → CS → CS
+  | 0, c => c
+  | f + 1, c =>
+    if c.noOpinion then c
+    else if c.parked then
+      match c.credit with
+      | some 0 => c
+      | some (k + 1) => csResume f (csDecide { c with credit := some k, parked := false })
+      | none => csResume f (csDecide { c with parked := false })
+    else if c.queued == 0 then c
+    else csResume f (csCall { c with queued := c.queued - 1 })
+
 def csOp (c : CS) (op : String) : CS :=
   if op == "drv.W" then csProcess { c with driving := true }
-  else if op.startsWith "snd.R:" then
-    -- "a client that has processed a GOAWAY starts no new request": the call is refused AND nothing is
-    -- written on any request stream while it runs
-    if (H3.Spec.Goaway.clientAfter c.proc).stopped then
-      { c with toks := c.toks ++ [if c.ev1 then "snd.R=err:rclosing/w=-" else "snd.R=err:rclosing/w=?"] }
-    else if !(H3.Spec.Goaway.clientAfter c.proc).err then
-      { c with toks := c.toks ++ ["snd.R=req:*/w=*"], started := c.started + 1 }
-    else { c with toks := c.toks ++ ["snd.R=*"], noOpinion := true }
+  else if op.startsWith "snd.R:" then (if c.parked then { c with queued := c.queued + 1 } else csCall c)
+  else if op.startsWith "gb" then
+    match (op.drop 2).toString.toNat? with
+    | some n => csResume (2 * c.queued + 4) { c with credit := c.credit.map (· + n) }
+    | none => c
   else
     match op.toList with
     | 'o' :: _ => { c with ctlOpen := true }
@@ -343,22 +448,24 @@ def csOp (c : CS) (op : String) : CS :=
 def handle : List String → String
   | "goaway" :: role :: _cfg :: ops =>
     if role == "server" then
-      let g := ops.foldl (fun g op => settle (4 * ops.length + 8) (opServer g op)) ({} : G)
+      let ops1 := (_cfg.splitOn ",").contains "ops=1"
+      let g := ops.foldl (fun g op => settle (4 * ops.length + 8) (opServer g op)) ({ ops1 := ops1 } : G)
       if g.unsupported then "unsupported ## ?" else
       -- model: its own history with the oracle's verdict on it; specification: the oracle's
       -- verdict on the observed history must be `ok`
       judgeObs g.obs ++ " " ++ renderToks g.obs ++ " pend=" ++ b01 (g.mode != 0) ++ " ## ok **"
     else if role == "client" then
       let ev1 := (_cfg.splitOn ",").contains "ev=1"
-      let g := ops.foldl opClient ({} : G)
+      let credit := (_cfg.splitOn ",").findSome? (fun x => if x.startsWith "bc=" then (x.drop 3).toString.toNat? else none)
+      let g := ops.foldl opClient ({ credit := credit } : G)
       if g.unsupported then "unsupported ## ?" else
-      let c := ops.foldl csOp ({ ev1 := ev1 } : CS)
+      let c := ops.foldl csOp ({ ev1 := ev1, credit := credit } : CS)
       let ids := (List.range c.started).map (fun k => toString (4 * k))
       -- written request streams: exactly those of the requests started; streams opened without a byte: no opinion
-      let tail := if c.noOpinion then ["w=*", "streams=*"]
-        else [if ev1 then "w=-" else "w=?", s!"streams={if ids.isEmpty then "-" else ",".intercalate ids}/*"]
-      renderClient ev1 g.obs g.s.opened ++ " pend=" ++ b01 g.driving ++ " ## " ++
-        " ".intercalate (c.toks ++ tail) ++ " pend=*"
+      let tail := if c.noOpinion then ["**"]
+        else [if ev1 then "w=-" else "w=?", s!"streams={if ids.isEmpty then "-" else ",".intercalate ids}/*", "pend=*"]
+      renderClient ev1 g.obs ++ " pend=" ++ b01 g.driving ++ " ## " ++
+        " ".intercalate (c.toks ++ tail)
     else "bad-op"
   | "goawayj" :: toks => judge ((toks.filter (fun t => t != "-" && t != "")).map parseJTok)
   | _ => "bad-op"
